@@ -19,7 +19,7 @@ SYN_TYPE_VARIANTS = ['Array', 'BareFn', 'Group', 'ImplTrait', 'Infer', 'Macro', 
 KEYWORDS = {'as', 'break', 'const', 'continue', 'crate', 'else', 'enum', 'extern', 'false', 'fn', 'for', 'if', 'impl', 'in', 'let', 'loop', 'match', 'mod', 'move',
             'mut', 'pub', 'ref', 'return', 'self', 'Self', 'static', 'struct', 'super', 'trait', 'true', 'type', 'unsafe', 'use', 'where', 'while', 'async', 'await',
             'dyn', 'abstract', 'become', 'box', 'do', 'final', 'macro', 'override', 'priv', 'typeof', 'unsized', 'virtual', 'yield', 'try', '_'}
-PUNCT_TOKENS = {'Comma': ',', 'Colon': ':', 'Or': '|', 'Dot2': '..', 'At': '@', 'Dot': '.', 'Tilde': '~', 'Colon2': '::', 'Lt': '<', 'Gt': '>', 'Eq': '=', 'Semi': ';',
+PUNCT_TOKENS = {'Comma': ',', 'Colon': ':', 'Or': '|', 'Dot2': '..', 'DotDot': '..', 'PathSep': '::', 'Plus': '+', 'Not': '!', 'AndAnd': '&&', 'At': '@', 'Dot': '.', 'Tilde': '~', 'Colon2': '::', 'Lt': '<', 'Gt': '>', 'Eq': '=', 'Semi': ';',
                 'Add': '+', 'Pound': '#', 'Bang': '!', 'FatArrow': '=>', 'Star': '*', 'And': '&', 'Question': '?'}
 KW_TOKENS = {'Underscore': '_', 'Return': 'return', 'As': 'as', 'Struct': 'struct', 'Enum': 'enum', 'Const': 'const', 'Where': 'where', 'Mut': 'mut', 'SelfValue': 'self'}
 GROUP_TOKENS = {'Paren': 'Parenthesis', 'Brace': 'Brace', 'Bracket': 'Bracket'}
@@ -452,6 +452,9 @@ def m_punct_parse_terminated_with(e, args, info):
 def m_pb_parse_terminated(e, args, info):
     pb = e.deref(args[0])
     g = generic_of(info, 1) or 'syn::token::Comma'
+    if g.startswith('fn('):
+        # syn 2: parse_terminated(parser, Token![,]) — the separator is passed as the token's marker fn `fn(TokenMarker) -> Token`
+        g = re.search(r'-> (syn::token::\w+)', g).group(1)
     v, er = _punctuated(e, pb, _closure_elem(e, args[1]), g, True, False)
     return res(v, er)
 
@@ -473,17 +476,36 @@ def m_parse2(e, args, info):
 @exact('syn::Attribute::parse_args_with')
 def m_parse_args_with(e, args, info):
     attr = e.deref(args[0])
-    ts = attr.f[4]
-    # attribute arguments: `( ... )`
-    if len(ts.items) != 1 or not (isinstance(ts.items[0], TGroup) and ts.items[0].delim == 'Parenthesis'):
-        return err(ErrV([(Opq('Span', 'attr'), 'expected attribute arguments in parentheses')], parse=True))
-    pb = PB(list(ts.items[0].ts.items), 0)
+    if e.syn == 2:
+        # syn 2: Meta::Path / Meta::NameValue are rejected, Meta::List parses its tokens whatever the delimiter
+        meta = attr.f[3]
+        if meta.d != 1:
+            return err(ErrV([(Opq('Span', 'attr'), 'expected attribute arguments in parentheses' if meta.d == 0 else 'expected parentheses')], parse=True))
+        inner = meta.p[1][0].f[2]
+    else:
+        ts = attr.f[4]
+        # syn 1: `enter_args` accepts one group in any delimiter (parenthesized! / bracketed! / braced!)
+        if not ts.items or not isinstance(ts.items[0], TGroup) or ts.items[0].delim == 'None':
+            return err(ErrV([(Opq('Span', 'attr'), 'expected attribute arguments in parentheses')], parse=True))
+        if len(ts.items) != 1:
+            return err(ErrV([(Opq('Span', 'attr'), 'unexpected token')], parse=True))
+        inner = ts.items[0].ts
+    pb = PB(list(inner.items), 0)
     r = e.call_closure(args[1], [Ref(Cell(pb))])
     if e.concretize(r.d, [0, 1]) == 1:
         return r
     if pb.pos < len(pb.items):
         return err(pb.err('unexpected token'))
     return r
+
+
+@exact('syn::Meta::path')
+def m_meta_path(e, args, info):
+    meta = e.deref(args[0])
+    pay = meta.p[meta.d][0]
+    if meta.d == 0:
+        return Ref(Cell(pay))
+    return Ref(Cell(pay.f[0]))
 
 
 @exact('syn::path::parsing::is_ident', 'syn::Path::is_ident')
@@ -577,6 +599,15 @@ def m_into_spans(e, args, info):
 
 # --------------------------------------------------------------------------- text -> syn::DeriveInput
 
+def _macro_delim(delim):
+    i = ['Parenthesis', 'Brace', 'Bracket'].index(delim)
+    return EnumV('syn::MacroDelimiter', i, {i: [Opq('Token', delim)]})
+
+
+class InputRejected(Exception):
+    """the parser library itself rejects the item before the derive runs (syn 2 parses attribute contents as `Meta`)"""
+
+
 def _attr_val(e, pound_idx, grp, sym):
     """`#[path(args)]` -> syn::Attribute"""
     inner = grp.ts.items
@@ -585,8 +616,21 @@ def _attr_val(e, pound_idx, grp, sym):
     if er is not None:
         raise ValueError('attribute path')
     _symbolise(path, sym)
-    rest = TS(list(inner[pb.pos:]))
-    return Agg('syn::Attribute', [Opq('Token', '#'), Opq('AttrStyle', 'outer'), Opq('Token', '[]'), path, rest])
+    rest = list(inner[pb.pos:])
+    if e.syn == 2:
+        # syn 2 `Meta::parse`: path, then a delimited group (List), `= expr` (NameValue) or nothing (Path); anything left over is an error
+        if not rest:
+            meta = EnumV('syn::Meta', 0, {0: [path]})
+        elif isinstance(rest[0], TGroup) and rest[0].delim != 'None':
+            if len(rest) != 1:
+                raise InputRejected('unexpected token')
+            meta = EnumV('syn::Meta', 1, {1: [Agg('syn::MetaList', [path, _macro_delim(rest[0].delim), rest[0].ts])]})
+        elif isinstance(rest[0], TPunct) and rest[0].ch == '=' and len(rest) >= 2:
+            meta = EnumV('syn::Meta', 2, {2: [Agg('syn::MetaNameValue', [path, Opq('Token', '='), Opq('Expr', 'value', TS(rest[1:]))])]})
+        else:
+            raise InputRejected('unexpected token')
+        return Agg('syn::Attribute', [Opq('Token', '#'), Opq('AttrStyle', 'outer'), Opq('Token', '[]'), meta])
+    return Agg('syn::Attribute', [Opq('Token', '#'), Opq('AttrStyle', 'outer'), Opq('Token', '[]'), path, TS(rest)])
 
 
 def _symbolise(path, sym):
@@ -630,10 +674,13 @@ def _type_val(e, toks):
 
 def _split_commas(items):
     out, cur, depth = [], [], 0
+    prev = None
     for t in items:
+        arrow = isinstance(prev, TPunct) and prev.ch in '-=' and prev.joint is True
+        prev = t
         if isinstance(t, TPunct) and t.ch == '<':
             depth += 1
-        elif isinstance(t, TPunct) and t.ch == '>':
+        elif isinstance(t, TPunct) and t.ch == '>' and not arrow:
             depth -= 1
         if isinstance(t, TPunct) and t.ch == ',' and depth == 0:
             out.append(cur); cur = []
@@ -661,7 +708,10 @@ def _fields_val(e, grp, sym):
         else:
             ident = none()
             ty = _type_val(e, rest)
-        fields.append(Agg('syn::Field', [attrs, Opq('Vis', 0), ident, none(), ty]))
+        if e.syn == 2:
+            fields.append(Agg('syn::Field', [attrs, Opq('Vis', 0), Opq('FieldMutability', 0), ident, none(), ty]))
+        else:
+            fields.append(Agg('syn::Field', [attrs, Opq('Vis', 0), ident, none(), ty]))
     if grp.delim == 'Brace':
         return EnumV('syn::Fields', 0, {0: [Agg('syn::FieldsNamed', [Opq('Token', '{}'), VecV(fields)])]})
     return EnumV('syn::Fields', 1, {1: [Agg('syn::FieldsUnnamed', [Opq('Token', '()'), VecV(fields)])]})
@@ -723,7 +773,7 @@ def derive_input(e, text, sym=None):
     return Agg('syn::DeriveInput', [attrs, Opq('Vis', 0), ident, GenericsV(gparams, None), data])
 
 
-@exact('syn::parse_quote::parse')
+@exact('syn::parse_quote::parse', 'syn::__private::parse')
 def m_parse_quote(e, args, info):
     ts = args[0]
     ty = strip_generics(generic_of2(info[-1]))
